@@ -4,6 +4,7 @@ import itertools
 from collections import namedtuple
 
 from .model import AnalysisError, node_src, is_self_attr, call_name, fold, NotConst
+from .spec import CLOCKS
 from .paths import Interp, Domain, Env, TOP, NONE, Const, TupleV, Exc, ORD, ASYNC, fmt_trace, Opaque, Ctx
 from .report import walk_no_nested
 
@@ -204,7 +205,7 @@ class GateDomain(Domain):
             if out == "ok":
                 return [("ok", Opaque("result" if name == "func" else "failed"), st)]
             return [("exc", Exc(ORD, OUTCOME_CLASS[out], node.lineno), st)]
-        if name == "time.time":
+        if name in CLOCKS:
             return [("ok", lin("now"), state)]
         if name == "self._mark_failed_server":
             return [("ok", NONE, self._ev(state, "mark", _vkey(args[0]) if args else None))]
@@ -303,6 +304,19 @@ def run(chk):
     canonical = _canonical_record(prog, hc)
     # ------------------------------------------------------------------ R1 gate table, both twins
     r1 = chk.rule("C13.R1", "gate decision table of _safely_run_func and _safely_run_set_many over (failing, attempts vs retry_attempts, elapsed, outcome, ignore_exc)")
+    # the times that are compared (failure time, dead time, last dead check, now) must be readings of one clock: the
+    # analyses below read every clock as "now"
+    clocks = {}
+    for f_ in [m_ for m_ in prog.all_functions() if m_.module is hc.module]:
+        for n_ in ast.walk(f_.node):
+            if isinstance(n_, ast.Call) and call_name(n_) in CLOCKS:
+                clocks.setdefault(call_name(n_), (f_, n_))
+    if len(clocks) > 1:
+        names_ = sorted(clocks)
+        f_, n_ = clocks[names_[1]]
+        r1.fail("HashClient:mixed-clocks", "%s reads the time from %s: readings of different clocks are subtracted from each other (e.g. a failure time from one, `now` from the other), so retry_timeout / dead_timeout are measured against an arbitrary offset" % (hc.module.rel, " and ".join(names_)), fn=f_, node=n_)
+    else:
+        r1.ok("one clock (%s) is read throughout %s" % (", ".join(clocks) or "none", hc.module.rel))
     r5 = chk.rule("C13.R5", "only the server's own error escapes: nothing is raised with ignore_exc, otherwise the caught exception itself")
     r5_real = r5
     if not canonical:
